@@ -190,6 +190,7 @@ def write_place(env, p, val):
 
 
 CUR_F = [None]
+CUR_B = [None]          # block being evaluated (for hooks that want to know which terminator a value feeds)
 
 
 def _place_ty(p):
@@ -348,6 +349,8 @@ def rvalue(env, rv):
         if rv["op"] == "Not":
             return (not v) if isinstance(v, bool) else UNKNOWN
         if rv["op"] == "Neg":
+            if isinstance(v, Sym):
+                return Sym("Neg", v)
             return -v if isinstance(v, int) else UNKNOWN
         return UNKNOWN
     if k == "discriminant":
@@ -400,6 +403,7 @@ def _run_fragment(f, b, env, stops, oracle, max_blocks, on_block, stuck_ok, max_
         if on_block:
             on_block(b, env)
         blk = f.blocks[b]
+        CUR_B[0] = b
         for s in blk["stmts"]:
             if s["k"] == "assign":
                 val = rvalue(env, s["rv"])
@@ -417,6 +421,15 @@ def _run_fragment(f, b, env, stops, oracle, max_blocks, on_block, stuck_ok, max_
                 return ("stuck", b, env)
             if v is UNKNOWN or isinstance(v, (Enum, list)):
                 raise Stuck("control depends on an unknown value at bb%d of %s" % (b, f.name))
+            if isinstance(v, Sym) and SYM_COMPARE is not None:
+                # a match on a symbolic integer: each arm is a test the client decides
+                nxt = t["otherwise"]
+                for val, bb in t["targets"]:
+                    if SYM_COMPARE("eq", v, val):
+                        nxt = bb
+                        break
+                b = nxt
+                continue
             v = to_int(v)
             nxt = t["otherwise"]
             for val, bb in t["targets"]:
